@@ -216,10 +216,31 @@ func (t *IntervalBST[T]) deleteNode(root *node[T], item T) *node[T] {
 		successor := root.right.findMin()
 		root.item = successor.item
 
-		// Delete the inorder successor (this is the removal that decrements the size)
-		root.right = t.deleteNode(root.right, successor.item)
+		// Unlink the successor node itself (this is the removal that decrements the size).
+		// Searching for it by key could stop at another item with the same bounds and
+		// drop that one instead, leaving the successor's item stored twice.
+		root.right = t.removeMin(root.right)
 	}
 
+	return root.rebalance()
+}
+
+// removeMin unlinks the leftmost node of the given non-empty subtree
+// and rebalances the nodes on the way back up.
+func (t *IntervalBST[T]) removeMin(root *node[T]) *node[T] {
+	if root.left == nil {
+		t.size--
+		return root.right
+	}
+
+	root.left = t.removeMin(root.left)
+
+	return root.rebalance()
+}
+
+// rebalance recalculates height and max of a node whose subtrees lost a node
+// and restores the balance, returning the new root of the subtree
+func (root *node[T]) rebalance() *node[T] {
 	// Update height and max value
 	root.updateHeight()
 	root.updateMax()
